@@ -16,14 +16,17 @@ Lamp(n, x, y) == SPlace(n, "small-lamp", Num(x), Num(y), <<>>)
 Ps == <<
   <<SIn("a", "signal-A", 5), SIn("b", "signal-B", 2), SLet("Signal", "r", Bin("+", Bin("*", Ref("a"), Ref("b")), Num(1)))>>,
   <<SIn("a", "signal-A", 5), SLet("Signal", "t", Bin("+", Ref("a"), Num(1))), SLet("Signal", "r", Bin("*", Ref("t"), Ref("t")))>>,
-  <<SIn("a", "signal-A", 5), Lamp("l", 0, 0), SProp("l", "enable", Bin(">", Ref("a"), Num(3)))>>
+  <<SIn("a", "signal-A", 5), Lamp("l", 0, 0), SProp("l", "enable", Bin(">", Ref("a"), Num(3)))>>,
+  <<SIn("a", "signal-A", 5), SLet("Signal", "r", Bin("*", Ref("a"), Lit(TName("signal-K"), Num(2))))>>
 >>
 Qs == <<
   <<SIn("c", "signal-A", 3), SIn("d", "signal-B", 4), SLet("Signal", "s", Bin("-", Ref("c"), Ref("d")))>>,
   <<SIn("c", "signal-A", 3), SLet("Signal", "u", Bin("+", Ref("c"), Num(1))), SLet("Signal", "s", Bin("*", Ref("u"), Num(2)))>>,
   <<SIn("c", "signal-A", 3), SIn("d", "signal-B", 4), SLet("Bundle", "qb", BLit(<<Ref("c"), Ref("d")>>)), SLet("Bundle", "qs", Bin("*", Ref("qb"), Num(2)))>>,
   <<SIn("c", "signal-A", 3), Lamp("k", 1, 0), SProp("k", "enable", Bin("<", Ref("c"), Num(2)))>>,
-  <<SIn("c", "signal-A", 3), SLet("Signal", "s", CondE(Bin(">", Ref("c"), Num(0)), Num(1))), SLet("Signal", "v", Bin(">", Ref("c"), Num(0)))>>
+  <<SIn("c", "signal-A", 3), SLet("Signal", "s", CondE(Bin(">", Ref("c"), Num(0)), Num(1))), SLet("Signal", "v", Bin(">", Ref("c"), Num(0)))>>,
+  <<SIn("c", "signal-A", 3), SLet("Signal", "s", Bin("*", Ref("c"), Lit(TName("signal-K"), Num(2))))>>,
+  <<SIn("c", "signal-A", 3), SLet("Signal", "k2", Lit(TName("signal-K"), Num(2))), SLet("Signal", "s", Bin("+", Bin("*", Ref("c"), Ref("k2")), Lit(TName("signal-A"), Num(5))))>>
 >>
 \* pairs whose entities are FAR apart (relay poles needed) and lie on neighbouring rows: each program is two chests and a lamp
 \* 30 tiles away that takes its enable from one chest and a colour component from the other (two producers into one sink)
